@@ -49,6 +49,19 @@ TEXT['C13'] = (
     'model under an independent keyword router, element-wise for arrays. Sampling, not enumeration.',
     'DESIGN.md 3.13')
 
+TEXT['C05'] = (
+    'Seeded search over histories of write_thermdat / read_thermdat calls by 1-3 simulated clients over 1-4 paths of a '
+    'fault-injecting file system (SimFS: open/write/close errors, ENOSPC after k characters, process crash at pre_open, '
+    'post_open, mid_write, pre_close, read-open and mid-read errors) under a simulated clock with jumps. Oracle: reference '
+    'file system (path -> last acknowledged species list | undefined); acknowledged writes are complete, follow the '
+    'fixed-column layout (independent column parser: 80 columns, record number in column 80, 15-character coefficient '
+    'fields, composition in 25-44, phase in 45, date = simulated clock) and read back to the same species in order (names, '
+    'phases, element counts, bounds to 0.1 K, 14 coefficients to 9 significant digits); faults are signalled, a failed open '
+    'leaves the old content, the next clean write recovers fully, reads never modify the disk, torn files are never judged. '
+    'In the thorough tier sampled writes are additionally re-run under every single-fault placement (fault enumeration inside '
+    'sampled histories). Fault-free and faulting configurations are separate swarm settings.',
+    'DESIGN.md 3.5')
+
 TECHNIQUE = 'deterministic simulation with fault injection (seeded schedule/history search, reference-model oracle, ddmin replay)'
 
 
